@@ -55,6 +55,7 @@ pub struct Isolator {
     pub seed_eff: u64,
     pub tmp: PathBuf,
     pub executions: u64,
+    pub deadline: f64,
 }
 
 impl Isolator {
@@ -67,7 +68,20 @@ impl Isolator {
             seed_eff,
             tmp,
             executions: 0,
+            deadline: f64::MAX,
         }
+    }
+
+    /// Wall-clock budget for everything that follows (isolation and minimisation): once it is
+    /// used up no further candidate is executed and the best scenario so far is reported. Any
+    /// scenario that showed the violation is an exact replay, minimal or not.
+    pub fn with_budget(mut self, seconds: f64) -> Isolator {
+        self.deadline = simcore::real_now_s() + seconds;
+        self
+    }
+
+    fn out_of_time(&self) -> bool {
+        simcore::real_now_s() > self.deadline
     }
 
     pub fn scenario_json(&self, sc: &Scenario) -> Value {
@@ -164,7 +178,7 @@ impl Isolator {
             if let Some(j) = first(self, n) {
                 return Some(j + 1);
             }
-            if n >= upto {
+            if n >= upto || self.out_of_time() {
                 return None;
             }
             n = (n * 4).min(upto);
@@ -174,11 +188,14 @@ impl Isolator {
     /// Minimise a scenario that shows `kind`.
     pub fn minimise(&mut self, sc: Scenario, kind: &Kind) -> Scenario {
         let mut best = sc;
-        let budget = 600u64;
+        let mut budget = 360u64; // phase 1 (history); raised to 600 for the plan-shrinking phases
         let start = self.executions;
+        let t_start = simcore::real_now_s();
+        // phase 1 may use at most 60 % of the remaining wall-clock budget
+        let mut phase_deadline = if self.deadline == f64::MAX { f64::MAX } else { t_start + 0.6 * (self.deadline - t_start).max(0.0) };
         macro_rules! fails {
             ($cand:expr) => {{
-                if self.executions - start > budget {
+                if self.executions - start > budget || self.out_of_time() || simcore::real_now_s() > phase_deadline {
                     false
                 } else {
                     let c: &Scenario = $cand;
@@ -186,13 +203,41 @@ impl Isolator {
                 }
             }};
         }
-        // 1. history: none at all? else shortest suffix, then ddmin
+        // 1. history: none at all? else only the runs that touch the methods of the final plan
+        //    (a long history is dominated by unrelated runs), shortest suffix, then ddmin
         if !best.history_idx.is_empty() {
             let mut c = best.clone();
             c.history_idx.clear();
             if fails!(&c) {
                 best = c;
             } else {
+                if best.history_idx.len() > 64 {
+                    let pool = pool_for(&self.property).expect("pool");
+                    let methods_of = |p: &Plan| -> std::collections::BTreeSet<u16> { p.tasks.iter().flat_map(|t| t.calls.iter().map(|c| c.method)).collect() };
+                    let wanted = methods_of(&best.plan);
+                    let plans: Vec<(u64, std::collections::BTreeSet<u16>)> = best
+                        .history_idx
+                        .iter()
+                        .map(|i| {
+                            let mut rng = Rng::for_run(self.seed_eff, *i);
+                            (*i, methods_of(&gen_plan(&mut rng, &pool)))
+                        })
+                        .collect();
+                    let mut c = best.clone();
+                    c.history_idx = plans.iter().filter(|(_, ms)| ms.iter().any(|m| wanted.contains(m))).map(|(i, _)| *i).collect();
+                    if c.history_idx.len() < best.history_idx.len() && fails!(&c) {
+                        best = c;
+                        // one method of the final plan at a time
+                        for m in &wanted {
+                            let mut c = best.clone();
+                            c.history_idx = plans.iter().filter(|(i, ms)| ms.contains(m) && best.history_idx.contains(i)).map(|(i, _)| *i).collect();
+                            if !c.history_idx.is_empty() && c.history_idx.len() < best.history_idx.len() && fails!(&c) {
+                                best = c;
+                                break;
+                            }
+                        }
+                    }
+                }
                 let n = best.history_idx.len();
                 let (mut lo, mut hi) = (0usize, n); // keep suffix [k..): find largest k that still fails
                 while lo + 1 < hi {
@@ -224,6 +269,8 @@ impl Isolator {
                 }
             }
         }
+        budget = 600;
+        phase_deadline = f64::MAX;
         // 2. make the remaining history explicit (only when it is small)
         if best.history_idx.len() <= 16 {
             let pool = pool_for(&self.property).expect("pool");
